@@ -82,6 +82,11 @@ func navAt(d *vdoc.Doc, id int, plain bool) xpath.NodeNavigator {
 	return d.At(id)
 }
 
+// runawayLimit bounds the number of nodes one iterator may deliver before the
+// harness gives up on it (duplicates are legitimate for multi-step paths, so
+// the bound is far above any document size).
+const runawayLimit = 300000
+
 // drain collects the ids an iterator delivers, with at most extra further
 // MoveNext calls after the first false (which must all be false: reported
 // through the second result).
@@ -99,7 +104,7 @@ func drain(it *xpath.NodeIterator, limit int) (ids []int, runaway bool) {
 func doSelect(e *xpath.Expr, d *vdoc.Doc, ctx int, plain bool) (o Outcome) {
 	defer guard(&o)
 	it := e.Select(navAt(d, ctx, plain))
-	o.IDs, o.Runaway = drain(it, 4*d.Len()+16)
+	o.IDs, o.Runaway = drain(it, runawayLimit)
 	if o.IDs == nil {
 		o.IDs = []int{}
 	}
@@ -155,7 +160,7 @@ func doEvaluate(e *xpath.Expr, d *vdoc.Doc, ctx int, plain bool) (o Outcome) {
 	case string:
 		o.Val = &Value{T: "s", V: x}
 	case *xpath.NodeIterator:
-		o.IDs, o.Runaway = drain(x, 4*d.Len()+16)
+		o.IDs, o.Runaway = drain(x, runawayLimit)
 		if o.IDs == nil {
 			o.IDs = []int{}
 		}
